@@ -21,9 +21,9 @@ ASN_MAP = {0: "0", 1: "65001", 2: "4200000000", 99: "7"}
 
 TIERS = {
     "quick": dict(trie_cfg="PfxTrie_quick.cfg", sim_num=3, sim_depth=24, tab_sim_num=3, episodes=40, ops=60, maxpool=60,
-                  k_episodes=30, k_ops=150, k_maxpool=400, tlc_timeout=900),
+                  k_episodes=30, k_ops=150, k_maxpool=400, tlc_timeout=900, hash_cfgs=["HashLin_quick.cfg"], hash_seqs=4),
     "thorough": dict(trie_cfg="PfxTrie_w3.cfg", sim_num=40, sim_depth=24, tab_sim_num=40, episodes=500, ops=80, maxpool=300,
-                     k_episodes=300, k_ops=300, k_maxpool=1200, tlc_timeout=3400),
+                     k_episodes=300, k_ops=300, k_maxpool=1200, tlc_timeout=3400, hash_cfgs=["HashLin_small.cfg", "HashLin_resize.cfg"], hash_seqs=40),
 }
 RELEVANT = {"C01": ("val",), "C02": ("add", "rm", "srcrm", "enum", "copyx"),
             "C09": ("add", "rm", "srcrm", "free", "diff", "copyx", "swap"),
@@ -130,7 +130,17 @@ def run(ctx):
 
     if ctx.replay:
         meta = json.load(open(os.path.join(ctx.replay, "meta.json")))
-        if meta["mode"] == "gen":
+        if meta["mode"] == "hash":
+            exe_h = vlib.build_harness(pid, "asan", ["hashlin_harness.c"], objs, exe="h_hashlin")
+            tch = TraceChecker(ctx, verdict, wd, "HashLinTrace", "HashLinTrace.cfg", "OK_C10", timeout=P["tlc_timeout"])
+            sc = os.path.join(ctx.replay, os.path.basename(meta["script"]))
+            ht = os.path.join(wd, "traceH.ndjson")
+            rc, out = vlib.sh([exe_h, sc, ht], env=vlib.SAN_ENV, timeout=600)
+            if rc != 0:
+                verdict.deviation("C10:hashlin-crash", "exit %d: %s" % (rc, out[-800:]), ctx.replay)
+            else:
+                tch.validate(ht, "H", meta, [sc])
+        elif meta["mode"] == "gen":
             harness(["gen"] + [str(x) for x in meta["args"]], "replay", meta)
         else:
             sc = os.path.join(ctx.replay, os.path.basename(meta["script"]))
@@ -154,6 +164,14 @@ def run(ctx):
         models.append({"spec": mm + ".tla", "cfg": mm + ".cfg", **r2.summary(),
                        "checked": "MirrorOK ReloadAtomic" + (" DiffIsNet TypeOK" if kind == "pfx" else " LookupsPartition"),
                        "action_coverage": {k: v[1] for k, v in r2.coverage.items()}})
+    if pid == "C10":
+        # the linear-hashing table underneath (tommy_hashlin): incremental grow / shrink and their reversals, step for step
+        for cfg in P["hash_cfgs"]:
+            r3 = vlib.tlc_model("MCHashLin", cfg, pid + "-model3", workers=16, coverage=True, timeout=P["tlc_timeout"], xmx="16g")
+            dead = [k for k, v in r3.coverage.items() if v[1] == 0 and k.endswith("X")]
+            if dead:
+                raise InfraError("vacuity: actions never taken in MCHashLin/%s: %s" % (cfg, dead))
+            models.append({"spec": "HashLin.tla", "cfg": cfg, **r3.summary(), "checked": "NoErr Findable ForeachExact Shape Load"})
     states = sum(m["distinct"] for m in models)
     transitions = sum(m["generated"] for m in models)
     cov["model"] = models
@@ -178,6 +196,28 @@ def run(ctx):
     traceA, _ = harness(["script", script], "A", {"mode": "script", "script": script, "seed": seed}, [script])
     cov["binding_A"] = {"generators": gens, "operations": n_ops,
                         "events": sum(1 for _ in open(traceA)) if traceA else 0}
+
+    # ---- H: the real tommy_hashlin against HashLin.tla, whole shape after every operation
+    if pid == "C10":
+        import hashgen
+        exe_h = vlib.build_harness(pid, "asan", ["hashlin_harness.c"], objs, exe="h_hashlin")
+        tch = TraceChecker(ctx, verdict, wd, "HashLinTrace", "HashLinTrace.cfg", "OK_C10", timeout=P["tlc_timeout"])
+        hs = os.path.join(wd, "hash_script.txt")
+        nh = hashgen.write_script(hs, seed, P["hash_seqs"], tier == "thorough")
+        ht = os.path.join(wd, "traceH.ndjson")
+        rc, out = vlib.sh([exe_h, hs, ht], env=vlib.SAN_ENV, timeout=600)
+        meta = {"mode": "hash", "script": hs, "seed": seed}
+        if rc != 0:
+            mpath = os.path.join(wd, "meta.json")
+            json.dump(meta, open(mpath, "w"))
+            rp = vlib.save_replay(pid, "H-crash-seed%d" % seed, [mpath, hs])
+            verdict.deviation("C10:hashlin-crash", "tommy_hashlin under the generated operations: exit %d: %s" % (rc, out[-800:]), rp)
+        else:
+            tch.validate(ht, "H", meta, [hs])
+        cov["binding_H"] = {"operations": nh, "judge": "HashLinTrace.tla (bucket_bit, low_max, split, state, count, every bucket in list order, foreach count after every call)",
+                            "events_validated": tch.events}
+        tc.traces += tch.traces
+        tc.events += tch.events
 
     # ---- B: seeded random driver on realistic data
     if kind == "pfx":
